@@ -817,6 +817,45 @@ func famHostileFrame(k *mon.Case) {
 			k.Failf("frame:partial-differs", "ReadPartialMessageWithEncodingN err=%v n=%d vs ReadMessageWithEncodingN err=%v n=%d (class %s)", err2, n2, err, n, class)
 		}
 	}
+	// BIP324 contents with hostile message-type bytes
+	if r.Chance(1, 3) {
+		var contents []byte
+		switch r.Intn(5) {
+		case 0: // arbitrary short id (assigned, unassigned, reserved)
+			contents = append([]byte{byte(r.Intn(256))}, payload...)
+		case 1: // long form with a garbage command
+			contents = append(append([]byte{0}, r.Bytes(12)...), payload...)
+		case 2: // long form cut inside the command
+			contents = refwire.FrameV2("version", payload)[:r.Intn(13)]
+		case 3: // long form naming a command that has a short id
+			c := make([]byte, 13)
+			copy(c[1:], cmd)
+			contents = append(c, payload...)
+		default:
+			contents = []byte{}
+		}
+		var m3 wire.Message
+		var pl3 []byte
+		var err3 error
+		k.Desc(map[string]any{"cmd": cmd, "pver": pver, "class": "v2-contents", "contents": hexN(contents, 2048)})
+		guard(k, "ReadV2MessageN:contents", len(contents), func() { m3, pl3, err3 = wire.ReadV2MessageN(contents, pver, enc) })
+		if err3 == nil {
+			c3, _ := refwire.Command(m3)
+			k.Count("v2.accepted", 1)
+			// both spellings of a command that has a short id are legal on the wire; the accepted
+			// contents must be one of them, and the payload must be canonical for the type
+			long := append(make([]byte, 0, 13+len(pl3)), 0)
+			var cb [12]byte
+			copy(cb[:], c3)
+			long = append(append(long, cb[:]...), pl3...)
+			if !bytes.Equal(contents, refwire.FrameV2(c3, pl3)) && !bytes.Equal(contents, long) {
+				k.Failf("v2:noncanonical-accepted", "ReadV2MessageN accepted contents that are not a canonical spelling of their own content\ncontents %s", hexN(contents, 300))
+			}
+			checkAccepted(k, "ReadV2MessageN", c3, m3, pl3, pver, enc)
+		} else {
+			k.Count("v2.rejected", 1)
+		}
+	}
 	k.Count("frame.class."+class, 1)
 	k.Eval(mon.Sig("frame", cmd, class, err == nil, mon.SigBytes(frame[:min(len(frame), 40)])), true)
 }
